@@ -464,6 +464,15 @@ class _Inliner:
         return out
 
     def match(self, call, selfname, clsname):
+        h = self._match(call, selfname, clsname)
+        if h is not None and getattr(h[0], "_is_classmethod", False):
+            f = call.func
+            if not (getattr(self, "caller_is_classmethod", False) and isinstance(f, ast.Attribute) and isinstance(f.value, ast.Name)
+                    and f.value.id == selfname):
+                return None
+        return h
+
+    def _match(self, call, selfname, clsname):
         f = call.func
         # a method called on a local that holds a fresh instance of the class (`chain = cls(...)` in a classmethod)
         if isinstance(f, ast.Attribute) and isinstance(f.value, ast.Name) and f.value.id in getattr(self, "instances", ()) \
@@ -787,8 +796,10 @@ def inline_new_helpers_program(trees, known_by_rel):
                         if isinstance(m, ast.FunctionDef) and any(f"{b_}.{m.name}" in all_known for b_ in base_names):
                             continue
                         if isinstance(m, ast.FunctionDef) and f"{st.name}.{m.name}" not in known and _inlinable(m) \
-                                and not any(ast.unparse(d) in ("property", "classmethod") or ast.unparse(d).endswith(".setter") for d in m.decorator_list):
+                                and not any(ast.unparse(d) == "property" or ast.unparse(d).endswith(".setter") for d in m.decorator_list):
                             static = any(ast.unparse(d) == "staticmethod" for d in m.decorator_list)
+                            # a classmethod helper is inlined only into classmethods that call it on their own `cls` (same binding)
+                            m._is_classmethod = any(ast.unparse(d) == "classmethod" for d in m.decorator_list)
                             helpers[("m", st.name, m.name)] = (m, True, static)
                             owner[("m", st.name, m.name)] = (tree, st)
         if not helpers:
@@ -810,7 +821,9 @@ def inline_new_helpers_program(trees, known_by_rel):
                         if isinstance(m, ast.FunctionDef) and m.args.args:
                             static = any(ast.unparse(d) == "staticmethod" for d in m.decorator_list)
                             n0 = inl.n
+                            inl.caller_is_classmethod = any(ast.unparse(d) == "classmethod" for d in m.decorator_list)
                             m.body = inl.process(m.body, None if static else m.args.args[0].arg, st.name)
+                            inl.caller_is_classmethod = False
                             if inl.n != n0:
                                 m._inlined = True
             n_round += inl.n
@@ -1100,16 +1113,34 @@ def _iterator_form(fn):
     if fn.args.vararg or fn.args.kwarg or fn.args.posonlyargs or fn.args.kwonlyargs or fn.args.defaults:
         return None
     body = [s_ for s_ in fn.body if not (isinstance(s_, ast.Expr) and isinstance(s_.value, ast.Constant) and isinstance(s_.value.value, str))]
+
+    def plain_assign(s_):
+        return isinstance(s_, ast.Assign) and len(s_.targets) == 1 and all(
+            isinstance(x, ast.Name) for x in (s_.targets[0].elts if isinstance(s_.targets[0], ast.Tuple) else [s_.targets[0]]))
+    # a generator may set up locals before its loop and name intermediates before each yield: those statements move to the caller
+    # (before its loop / at the head of its loop body) - `for` callers only
+    pre, inner_pre = [], []
+    while len(body) > 1 and plain_assign(body[0]) and isinstance(body[-1], ast.For):
+        pre.append(body.pop(0))
+    fn._iter_pre, fn._iter_inner = [], []
     if len(body) != 1:
         return None
     st = body[0]
-    if isinstance(st, ast.For) and not st.orelse and len(st.body) == 1:
-        inner, conds = st.body[0], []
+    if isinstance(st, ast.For) and not st.orelse and len(st.body) >= 1:
+        b_ = list(st.body)
+        while len(b_) > 1 and plain_assign(b_[0]):
+            inner_pre.append(b_.pop(0))
+        if len(b_) != 1 or any(isinstance(n, (ast.Yield, ast.YieldFrom)) for s_ in pre + inner_pre for n in ast.walk(s_)):
+            return None
+        fn._iter_pre, fn._iter_inner = pre, inner_pre
+        inner, conds = b_[0], []
         while isinstance(inner, ast.If) and not inner.orelse and len(inner.body) == 1:
             conds.append(inner.test)
             inner = inner.body[0]
         if isinstance(inner, ast.Expr) and isinstance(inner.value, ast.Yield) and inner.value.value is not None:
             return st.target, st.iter, inner.value.value, conds
+        return None
+    if pre:
         return None
     comp = None
     if isinstance(st, ast.Return) and isinstance(st.value, (ast.ListComp, ast.GeneratorExp)):
@@ -1187,6 +1218,8 @@ def inline_iterator_helpers_program(trees, known_by_rel):
                     return helpers[("m", k, f.attr)]
         return None
 
+    extras = {}
+
     def instantiate(call, helper, selfname, avoid):
         fn, (T, IT, E, conds), hself = helper
         params = [a.arg for a in fn.args.args][(1 if hself else 0):]
@@ -1197,7 +1230,10 @@ def inline_iterator_helpers_program(trees, known_by_rel):
             mapping[hself] = ast.Name(id=selfname, ctx=ast.Load())
         # loop variables of the helper that clash with names of the caller get fresh names
         ren = {}
-        for nm in _target_names(T):
+        moved = list(getattr(fn, "_iter_pre", [])) + list(getattr(fn, "_iter_inner", []))
+        for nm in _target_names(T) + [x for s_ in moved for x in _target_names(s_.targets[0])]:
+            if nm in ren:
+                continue
             if nm in avoid or nm in mapping:
                 k = 0
                 while f"{nm}_{k}" in avoid:
@@ -1209,6 +1245,14 @@ def inline_iterator_helpers_program(trees, known_by_rel):
                 n.id = ren[n.id]
         mapping.update({a: ast.Name(id=b, ctx=ast.Load()) for a, b in ren.items()})
         sub = lambda e: _Subst(mapping).visit(copy.deepcopy(e))
+
+        def sub_stmt(s_):
+            s2 = sub(s_)
+            for n in ast.walk(s2.targets[0]):
+                if isinstance(n, ast.Name) and n.id in ren:
+                    n.id = ren[n.id]
+            return s2
+        extras[id(call)] = ([sub_stmt(s_) for s_ in getattr(fn, "_iter_pre", [])], [sub_stmt(s_) for s_ in getattr(fn, "_iter_inner", [])])
         return T2, sub(IT), sub(E), [sub(c) for c in conds]
 
     def names_in(fn):
@@ -1222,7 +1266,7 @@ def inline_iterator_helpers_program(trees, known_by_rel):
             self.generic_visit(node)
             for gi, g in enumerate(node.generators):
                 h = resolve(g.iter, self.rel, self.selfname, self.clsname)
-                if h is None:
+                if h is None or getattr(h[0], "_iter_pre", None) or getattr(h[0], "_iter_inner", None):
                     continue
                 xs = _target_names(g.target)
                 inst = instantiate(g.iter, h, self.selfname, names_in(self.fn) - set(xs))
@@ -1256,10 +1300,16 @@ def inline_iterator_helpers_program(trees, known_by_rel):
             h = resolve(node.iter, self.rel, self.selfname, self.clsname)
             if h is None:
                 return node
-            inst = instantiate(node.iter, h, self.selfname, names_in(self.fn))
+            # without conditions every iteration binds the caller's targets, so a loop variable of the helper may share a name with
+            # them (`for region, group, z in self.h(x)` over a helper that loops `for region, group in ..`)
+            own_ = set(_target_names(node.target)) if not h[1][3] else set()
+            inst = instantiate(node.iter, h, self.selfname, names_in(self.fn) - own_)
             if inst is None:
                 return node
             T, IT, E, conds = inst
+            pre_, inner_ = extras.pop(id(node.iter), ([], []))
+            if (pre_ or inner_) and node.orelse:
+                return node
             bind = ast.Assign(targets=[node.target], value=E, lineno=node.lineno)
             for n in ast.walk(bind.targets[0]):
                 if hasattr(n, "ctx"):
@@ -1267,9 +1317,11 @@ def inline_iterator_helpers_program(trees, known_by_rel):
             body = [bind] + node.body
             for c in reversed(conds):
                 body = [ast.If(test=c, body=body, orelse=[])]
-            node.target, node.iter, node.body = T, IT, body
+            node.target, node.iter, node.body = T, IT, inner_ + body
             count[0] += 1
-            return node
+            for s_ in pre_ + inner_:
+                ast.copy_location(s_, node)
+            return (pre_ + [node]) if pre_ else node
 
     for rel, tree in trees.items():
         for st in tree.body:
